@@ -59,3 +59,6 @@ SHARED_FUNCS = {
                                     'C06': r'.*(Apply1|Apply2|New|NewConst).*', 'C08': r'.*(New|NewConst|Subset).*', 'C09': r'.*(Equals|View|StringAt|AppendByteStringAt|Len).*'},
 }
 UNMODELLED_FUNCS = [r'QFrame\.(ByteSize|Rolling|Append|Doc|functionType)', r'Doc', r'.*\.ByteSize', r'.*\.FunctionType', r'.*\.DataType', r'.*\.Append']
+
+# properties whose models are tied by the translated functions of Gen/GenFuncs.v (Properties/T1.v)
+T1_PROPS = ['C03', 'C04', 'C05', 'C06', 'C07', 'C08', 'C14', 'C16', 'C17']
